@@ -28,7 +28,7 @@ NA = {
 CHECKS = {
     "C14": {
         "category": "exploration",
-        "text": "Seeded search over histories of public-API calls (set-up, simulate, reform, alias/deep copy, function replacement, array-form rewrite, malformed-data calls) executed in ONE long-lived process, with injected aborts at arbitrary line events, parameter-file read errors/short reads and permuted directory enumeration. Every comparable call is compared bitwise with the same call in a pristine process (different hash seed); every caller-owned object is snapshotted around every library call. Sampling, not proof; each history is a pure function of (VERIF_SEED, index) and replays exactly.",
+        "text": "Seeded search over histories of public-API calls (set-up, simulate with user aggregation specs / what-if variants of a population / long-lived data objects, in-place reform and revert, alias/deep copy, function replacement incl. overrides of derived columns and user modules by path, array-form rewrite, malformed-data calls) executed in ONE long-lived process, with injected faults: abort at a seeded line event, crash-point sweeps (one kind of call aborted on a regular grid of line events), parameter-file read errors and short reads, failing or incomplete directory listings, a user module that fails once, permuted directory enumeration, different hash seed. Every comparable call is compared bitwise with the same call in a pristine process; every caller-owned object is snapshotted around every library call. Sampling, not proof; each history is a pure function of (VERIF_SEED, index) and replays exactly.",
         "design_ref": "DESIGN.md 2, 4.3",
         "note": "Trusted: a forked child of a zygote that imported gettsim and called nothing equals a fresh process (validated on every run by cold brand-new-interpreter references); exception messages and warnings are not compared; numpy backend only.",
         "technique": "deterministic simulation: seeded API-history search in one process with abort/I-O/enumeration-order fault injection, pristine-process twin as reference model, ddmin-minimised replay files",
